@@ -432,6 +432,81 @@ example :
 example : ((Img.mk 4 2 1 none none []).getByAddrLax 7).map (fun x => x.1) = .error .spsdk ∧
     ((Img.mk 4 2 1 none none []).getByAddr 7).map (fun x => x.1) = .error .spsdk := by decide
 
+/-! ## the search as it is now (e6ec992): full strength -/
+
+/-- soundness, full strength: the result is a descendant reached by the returned path, at the returned offset, and it
+    CONTAINS the address (`start ≤ addr < start + len`) -/
+theorem getByAddr_sound (i : Img) : ∀ (addr : Nat) (path : List Nat) (o : Nat) (d : Img),
+    i.getByAddr addr = .ok (path, o, d) →
+    SubAt i o d ∧ atPath path i = some d ∧ pathOffset path i = o ∧
+      i.offset + o ≤ addr ∧ addr < i.offset + o + d.len := by
+  induction i using Img.induct' with
+  | h s o a b p ch ih =>
+    intro addr path off d h
+    rw [Img.getByAddr] at h
+    by_cases hlt : addr < o
+    · rw [if_pos hlt] at h; cases h
+    · rw [if_neg hlt] at h
+      cases hch : getByAddrChildren ch (addr - o) 0 with
+      | some r =>
+        rw [hch] at h; simp only [] at h
+        cases h
+        obtain ⟨k, c, path', off', h1, h2, h3, h4, _⟩ := getByAddrChildren_some _ _ _ _ hch
+        simp only [] at h2 h3 h4
+        subst h3 h4
+        have hmem := List.mem_of_getElem? h1
+        obtain ⟨g1, g2, g3, g4, g5⟩ := ih c hmem _ _ _ _ h2
+        refine ⟨.step _ c d off' hmem g1, ?_, ?_, ?_, ?_⟩
+        · simp [atPath, Img.children, h1, g2]
+        · simp [pathOffset, Img.children, h1, g3]
+        · show o + (c.offset + off') ≤ addr; omega
+        · show addr < o + (c.offset + off') + d.len; omega
+      | none =>
+        rw [hch] at h; simp only [] at h
+        by_cases hgt : addr ≥ o + (Img.mk s o a b p ch).len
+        · rw [if_pos hgt] at h; cases h
+        · rw [if_neg hgt] at h
+          cases h
+          refine ⟨.self _, rfl, rfl, ?_, ?_⟩
+          · simp only [Img.offset]; omega
+          · simp only [Img.offset]; omega
+
+/-- completeness: the search fails only for an address outside the root (`[offset, offset + len)`), and only with
+    `SPSDKValueError` -/
+theorem getByAddr_error (i : Img) (addr : Nat) (e : PyErr) (h : i.getByAddr addr = .error e) :
+    e = .spsdk ∧ (addr < i.offset ∨ i.offset + i.len ≤ addr) := by
+  cases i with
+  | mk s o a b p ch =>
+    rw [Img.getByAddr] at h
+    by_cases hlt : addr < o
+    · rw [if_pos hlt] at h; cases h
+      exact ⟨rfl, Or.inl hlt⟩
+    · rw [if_neg hlt] at h
+      cases hch : getByAddrChildren ch (addr - o) 0 with
+      | some r => rw [hch] at h; cases h
+      | none =>
+        rw [hch] at h; simp only [] at h
+        by_cases hgt : addr ≥ o + (Img.mk s o a b p ch).len
+        · rw [if_pos hgt] at h; cases h
+          exact ⟨rfl, Or.inr hgt⟩
+        · rw [if_neg hgt] at h; cases h
+
+/-- every address inside the root is answered (an address beyond the root can still be answered by a sub-image that
+    sticks out of it - `validate()` refuses such trees) -/
+theorem getByAddr_ok_of_range (i : Img) (addr : Nat) (h1 : i.offset ≤ addr) (h2 : addr < i.offset + i.len) :
+    ∃ r, i.getByAddr addr = .ok r := by
+  cases h : i.getByAddr addr with
+  | ok r => exact ⟨r, rfl⟩
+  | error e => have := (getByAddr_error i addr e h).2; omega
+
+/-- the hypotheses are satisfiable: two adjacent sub-images, every address goes to the one that holds the byte, the end
+    address of the root is refused -/
+example :
+    let r : Img := .mk 8 0 1 none none [.mk 4 0 1 none none [], .mk 4 4 1 none none []]
+    (r.getByAddr 3).map (fun x => (x.1, x.2.1)) = .ok ([0], 0) ∧
+    (r.getByAddr 4).map (fun x => (x.1, x.2.1)) = .ok ([1], 4) ∧
+    (r.getByAddr 8).map (fun x => (x.1, x.2.1)) = .error .spsdk := by decide
+
 /-! ## `find_sub_image` -/
 
 /-- a found index names the first child with that name -/
